@@ -97,6 +97,40 @@ fn gen_free_history(rng: &mut Rng) -> Hist {
             } else {
                 rng.usize_below(23)
             };
+            if VARS[var].kind == Kind::S && rng.chance(1, 8) {
+                // a value replaced by a close relative of itself: the two agree for 8..33
+                // characters (or all but the last) and then part; the second is shorter,
+                // equally long or longer (a corrected date, another file below the same URL;
+                // a setter that compares only a prefix or reuses the old buffer shows here;
+                // wave 17, C07-54)
+                let first = format!(
+                    "{}{}",
+                    rng.pick_str(&[
+                        "https://www.example.org/downloads/",
+                        "2024-01-01 12:00:00 +0000 ",
+                        "category/package-name-with-a-long-",
+                        "0123456789abcdef0123456789abcdef",
+                        "",
+                    ]),
+                    gen_text(rng, ascii, false)
+                );
+                let chars: Vec<char> = first.chars().collect();
+                let keep = (*rng.pick(&[8usize, 15, 16, 17, 24, 31, 32, 33, usize::MAX])).min(chars.len().saturating_sub(1));
+                let mut second: String = chars[..keep].iter().collect();
+                second.push_str(rng.pick_str(&["X", "release/2.0.tar.gz", "zz", ""]));
+                if rng.chance(1, 2) {
+                    let want = chars.len() + rng.urange(0, 3);
+                    while second.chars().count() < want {
+                        second.push('y');
+                    }
+                }
+                ops.push(Op::Set { var, val: Val::S(first) });
+                if rng.chance(1, 4) {
+                    ops.push(Op::Print);
+                }
+                ops.push(Op::Set { var, val: Val::S(second) });
+                continue;
+            }
             let long_ok = rng.chance(1, 10);
             ops.push(Op::Set {
                 var,
